@@ -52,6 +52,14 @@ claim("C20", "Typestate Get -> hold -> Put of the pooled write buffer on every p
       "every access to the buffer in the writer methods is preceded by evidence that the writer is alive; buffers are kept between messages only without a pool. The application's pool implementation is trusted.",
       NOTE, "path-sensitive typestate / guard-dominance analysis on go/ssa with mod-sets", "DESIGN.md §4 C20")
 
+claim("C01", "Codec-agreement and cursor rules on every path: writer header (class thresholds, extension bytes, back-filled position, encoded length == bytes handed to write, masking of exactly the payload) against the reader's decoding of the same classes and its key/position threading; "
+      "every write API advances the cursor by exactly what it copied (including data returned with an error), the unbuffered path is server-only, deflate tail constants agree, compressed messages are closed through flate. "
+      "NOT decided: byte-identical payloads for all sizes/chunkings, compress/flate and encoding/json round trips (value properties; see DESIGN.md §6).",
+      NOTE, "sibling/codec agreement via canonical symbolic terms on enumerated paths (go/ssa)", "DESIGN.md §4 C01")
+claim("C02", "Every path of both frame builders: mask bit/key/masking iff client with one fresh crypto/rand key per frame (same key in header and masking call, position 0, exactly the payload range); minimal length class by the RFC thresholds with matching big-endian extension and header position; "
+      "byte 0 evaluated for every opcode = opcode|FIN|RSV1 only; RSV1 only via NextWriter's negotiated/enabled/data guard with the compressing writer installed, cleared per frame; continuation opcode + cursor reset; control frames unfragmented <= 125. Decoded payload equality is not decided.",
+      NOTE, "path enumeration with canonical symbolic terms + finite-domain evaluation of header bytes (go/ssa)", "DESIGN.md §4 C02")
+
 REASON_NOT_BUILT = "rules for this property are not built yet in this revision (see DESIGN.md §4 for the planned static rules); nothing is claimed"
 
 def main():
